@@ -2,6 +2,7 @@
 import os, json, re
 import vlib
 from props import panellib
+from props import overlap
 
 panellib.refresh_gen()
 
@@ -104,12 +105,19 @@ def gen_cases(ctx):
     for i in range(nrand):
         users, steps = gen_random(rng, rng.choice([6, 10, 10, 16, 24]))
         cases.append(('r%d' % i, users, steps, 'random'))
+    # calls OVERLAPPING through the UserManager seam: an upload round held inside Manager.UploadStatus while
+    # usage is collected / users terminate / further rounds run (every release order), first connections held
+    # inside AuthenticateUser, GetSession held inside AuthoriseNewSession - see overlap.py
+    cases += overlap.cases(rng, 80 if ctx.quick() else 1200)
     return cases
 
 
-def oracle(users, steps_replayed, obs, ses, orph):
+def oracle(users, steps_replayed, obs, ses, orph, strict=False):
     """Model-independent accounting.  users: initial records; steps_replayed: steps with observed byte counts;
-    obs: list of 6-tuples per step; ses: [(k,uid,closed,born,readN,written,notice)].  Returns [(sig, msg)]."""
+    obs: list of 6-tuples per step; ses: [(k,uid,closed,born,readN,written,notice)].  Returns [(sig, msg)].
+    strict (the overlap families: ample credit, no expiry, every termination is the CloseSession of a last
+    session, whose notice frame is sent BEFORE the final collection): a user that was terminated in between
+    must be charged exactly too, unless one of its sessions was lost by the panel (C17's finding)."""
     bad = []
     init = {}
     exp = {}
@@ -188,6 +196,10 @@ def oracle(users, steps_replayed, obs, ses, orph):
             elif charged < cnt[i] and u not in terminated_ever and queue_empty:
                 bad.append(('carried-but-not-charged', 'user %d %s stayed active, traffic has stopped and two upload rounds completed: charged %d, carried %d' % (
                     u, dname, charged, cnt[i])))
+            elif charged < cnt[i] and strict and queue_empty and final[u][0] > 0 and final[u][1] > 0 \
+                    and not any(e[1] == u and (e[3] or e[0] in orph) for e in ses) and not any(st[0] == 'K' for st in steps_replayed):
+                bad.append(('carried-but-not-charged', 'user %d %s (terminated only by closing its last session, never cut off): traffic has stopped and two upload rounds completed: charged %d, carried %d' % (
+                    u, dname, charged, cnt[i])))
     # cut-off: after the final rounds, exhausted / expired / deleted users have no live reachable session
     for e in ses:
         k, u, closed = e[0], e[1], e[2]
@@ -204,6 +216,67 @@ def oracle(users, steps_replayed, obs, ses, orph):
         if why and finaltab.get(u, '-') != '-':
             bad.append(('not-cut-off', 'user %d (%s) still has live session %d after the uploads' % (u, why, k)))
     return bad
+
+
+def run_and_judge(ctx, batch, tag, strict=True):
+    """[(id, users, steps)] through the real panel; -> {id: [(sig, msg)]} of the accounting oracle, go output"""
+    lines = ['%s 00 10 %s %s' % (cid, users, ' '.join(steps)) for cid, users, steps in batch]
+    rc, log, out, dt = panellib.run_go(ctx, lines, tag, test='TestVerifC16', files=('c16_test.go', 'c17_common_test.go'))
+    go = panellib.parse_go(out)
+    res = {}
+    for cid, users, steps in batch:
+        io = go['obs'].get(cid)
+        if io is None or cid in go['blocked']:
+            continue
+        bad = oracle(users, go['replay'].get(cid, [])[3:], panellib.split_obs(io), go['ses'].get(cid, []), go['orph'].get(cid, []), strict=strict)
+        if bad:
+            res[cid] = bad
+    return res, go
+
+
+def shrink_case(ctx, obj, sig):
+    case = obj['case']
+    n = [0]
+
+    def judge(batch):
+        n[0] += 1
+        res, go = run_and_judge(ctx, batch, 'shrink%d' % n[0])
+        return set(cid for cid, bad in res.items() if any(sg == sig for sg, _ in bad))
+    # the two final upload rounds are what the oracle's "traffic has stopped and an upload completed" needs
+    tail = case['steps'][-2:] if case['steps'][-2:] == ['R', 'R'] else []
+    body = case['steps'][:len(case['steps']) - len(tail)]
+
+    def judge_with_tail(batch):
+        return judge([(cid, u, st + tail) for cid, u, st in batch])
+    small = overlap.shrink(judge_with_tail, case['users'], body) + tail
+    if len(small) < len(case['steps']):
+        res, go = run_and_judge(ctx, [(case['id'], case['users'], small)], 'shrunk')
+        if case['id'] in res:
+            return dict(obj, case=dict(case, steps=small), original_case=case, steps_as_executed=go['replay'].get(case['id'], [])[3:],
+                        implementation=go['obs'].get(case['id']), sessions=go['ses'].get(case['id']), oracle=res[case['id']])
+    return obj
+
+
+def search(ctx, verdict, problems):
+    """A proof obligation (e.g. a generated atomicity obligation about commitUpdate) or the correspondence broke
+    and the seeded scenarios showed no mis-charge: look for one among overlapped calls, densely (the exhaustive
+    families of overlap.py + many seeded compositions), judged by the model-independent accounting oracle."""
+    cs = overlap.cases(ctx.rng, 400 if ctx.quick() else 4000)
+    res, go = run_and_judge(ctx, [(cid, u, st) for cid, u, st, _ in cs], 'search')
+    by = {c[0]: c for c in cs}
+    new = False
+    for cid in sorted(res, key=lambda c: len(by[c][2])):
+        sig, msg = res[cid][0]
+        obj = dict(case=dict(id=cid, users=by[cid][1], steps=by[cid][2], kind=by[cid][3]), steps_as_executed=go['replay'].get(cid, [])[3:],
+                   implementation=go['obs'].get(cid), sessions=go['ses'].get(cid), no_longer_checks=[p[0] for p in problems][:6],
+                   how='python3 tools/check.py C16 --replay <this file>')
+        obj = shrink_case(ctx, obj, sig)
+        obj['schedule'] = overlap.describe(obj['case']['steps'])
+        if verdict.oracle_failure(sig + ':' + cid, 'C16 oracle (search): ' + msg, obj) == 'new':
+            new = True
+            break
+    ctx.notes.append('search over %d overlapped scenarios: %d with an accounting failure' % (len(cs), len(res)))
+    return new
 
 
 def correspondence(ctx, verdict, pr):
@@ -232,6 +305,7 @@ def correspondence(ctx, verdict, pr):
     orc = 0
     reported = {}
     kinds = []
+    failures = []
     tot_rx = tot_tx = 0
     nterm = 0
     for cid, users, steps, kind in cases:
@@ -249,13 +323,19 @@ def correspondence(ctx, verdict, pr):
             orc += 1
             verdict.oracle_failure('deadlock:' + cid, 'C16 scenario deadlocked (C17\'s property)', dict(case=dict(id=cid, users=users, steps=steps), implementation=io))
             continue
-        for sig, msg in oracle(users, rp[3:], panellib.split_obs(io), ses, go['orph'].get(cid, [])):
+        for sig, msg in oracle(users, rp[3:], panellib.split_obs(io), ses, go['orph'].get(cid, []), strict=kind.startswith('overlap')):
             orc += 1
-            reported[sig] = reported.get(sig, 0) + 1
-            if reported[sig] <= 2:
-                verdict.oracle_failure(sig + ':' + cid, 'C16 oracle: ' + msg,
-                                       dict(case=dict(id=cid, users=users, steps=steps), steps_as_executed=rp[3:], implementation=io, model=mo,
-                                            sessions=ses, how='python3 tools/check.py C16 --replay <this file>'))
+            failures.append((len(steps), len(failures), sig, msg,
+                             dict(case=dict(id=cid, users=users, steps=steps, kind=kind), steps_as_executed=rp[3:], implementation=io, model=mo,
+                                  sessions=ses, how='python3 tools/check.py C16 --replay <this file>')))
+    # report the shortest scenarios, at most two per kind of failure; overlapped ones are shrunk first
+    for _, _, sig, msg, obj in sorted(failures, key=lambda x: x[:2]):
+        reported[sig] = reported.get(sig, 0) + 1
+        if reported[sig] <= 2:
+            if reported[sig] == 1 and obj['case']['kind'].startswith('overlap'):
+                obj = shrink_case(ctx, obj, sig)
+            obj['schedule'] = overlap.describe(obj['case']['steps'])
+            verdict.oracle_failure(sig + ':' + obj['case']['id'], 'C16 oracle: ' + msg, obj)
     timer = [x for x in go['extra'] if x.startswith('#timer')]
     tm = dict(x.split('=') for x in timer[0].split()[1:]) if timer else {}
     if not tm or 'err' in tm:
@@ -274,7 +354,7 @@ def correspondence(ctx, verdict, pr):
                                   cid, c[1], ' '.join(c[2]), ' '.join(go['replay'].get(cid, [])), io, mo)))
     verdict.cov.update(
         evaluations=len(cases), distinct_nontrivial=len(set((c[1], ' '.join(c[2])) for c in cases)),
-        rule='distinct (users, step list); each scenario = 10..35 lock-step operations: traffic in both directions through the real switchboard on several sessions of 1..3 users, updateUsageQueue / commitUpdate / rounds (also held between their two lock acquisitions with one operation overlapping), closures incl. the last session, connection loss, top-ups, zeroed credits, expiry changes, deletions, clock; two final upload rounds; + the real regularQueueUpload loop',
+        rule='distinct (users, step list); each scenario = 10..35 lock-step operations: traffic in both directions through the real switchboard on several sessions of 1..3 users, updateUsageQueue / commitUpdate / rounds (also held between their two lock acquisitions with one operation overlapping), closures incl. the last session, connection loss, top-ups, zeroed credits, expiry changes, deletions, clock; two final upload rounds; + the real regularQueueUpload loop; calls OVERLAPPING through the UserManager seam (an upload round held inside Manager.UploadStatus by a wrapper around the real localManager while usage is collected, users terminate and re-join, further rounds run and are released in every order; first connections held inside AuthenticateUser; GetSession held inside AuthoriseNewSession): exhaustive small families + seeded compositions, judged with the strict accounting rule',
         samples=[' '.join(mlines[0].split()[1:]) if mlines else '', ' '.join(mlines[len(mlines) // 2].split()[1:])[:400] if mlines else ''],
         traces_validated_against_impl=len(go['obs']), mismatches=len(mism), oracle_failures=orc,
         input_distribution=dict(kinds=vlib.summarize_dist(kinds), bytes_up_carried=tot_rx, bytes_down_carried=tot_tx,
@@ -299,9 +379,12 @@ def replay(ctx, verdict):
     io = go['obs'].get(cid, '')
     print('scenario:      ', line); print('as executed:   ', ' '.join(go['replay'].get(cid, [])))
     print('implementation:', io); print('model:         ', model.get(cid)); print('sessions:', go['ses'].get(cid))
-    bad = oracle(case['users'], go['replay'].get(cid, [])[3:], panellib.split_obs(io), go['ses'].get(cid, []), go['orph'].get(cid, [])) if io else [('driver', log[-1500:])]
+    strict = str(case.get('kind', case['id'])).startswith(('overlap', 'ov'))
+    bad = oracle(case['users'], go['replay'].get(cid, [])[3:], panellib.split_obs(io), go['ses'].get(cid, []), go['orph'].get(cid, []), strict=strict) if io else [('driver', log[-1500:])]
     for sig, msg in bad:
         print('oracle:', sig, msg)
+    for ln in overlap.describe(case['steps']):
+        print('   ', ln)
     return 1 if bad else 0
 
 
